@@ -11,6 +11,9 @@
    cfg = [delim, idx ("contig" | "sparse"), order]                                          *)
 EXTENDS SpyneSignatures
 
+\* a member published under another name (sub_name): the keys spell the PUBLIC name wherever the member sits
+Fs(n, sub, t, min, max) == [n |-> n, t |-> t, min |-> min, max |-> max, sub |-> sub]
+Pub(f) == IF "sub" \in DOMAIN f THEN f.sub ELSE f.n
 \* wire index of the k-th element ("sparse": distinct, increasing, and not in string order)
 Ix(cfg, k) == IF cfg.idx = "contig" THEN k - 1 ELSE <<2, 10, 11, 25, 100, 101>>[k]
 RECURSIVE FlatV(_, _, _, _), FlatItems(_, _, _, _, _), FlatFields(_, _, _, _, _)
@@ -21,7 +24,7 @@ FlatItems(t, items, key, cfg, k) ==
        \o FlatItems(t, items, key, cfg, k + 1)
 FlatMember(f, x, key, cfg) == IF x = Nil THEN <<>> ELSE IF f.max > 1 THEN FlatSeqOf(f.t, x[2], key, cfg) ELSE FlatV(f.t, x, key, cfg)
 FlatFields(fl, vals, key, cfg, k) ==
-  IF k > Len(fl) THEN <<>> ELSE FlatMember(fl[k], vals[k], key \o cfg.delim \o fl[k].n, cfg) \o FlatFields(fl, vals, key, cfg, k + 1)
+  IF k > Len(fl) THEN <<>> ELSE FlatMember(fl[k], vals[k], key \o cfg.delim \o Pub(fl[k]), cfg) \o FlatFields(fl, vals, key, cfg, k + 1)
 FlatV(t, v, key, cfg) ==
   IF v = Nil THEN <<>>
   ELSE IF t.k = "prim" THEN << <<key, v[2]>> >>
@@ -29,7 +32,7 @@ FlatV(t, v, key, cfg) ==
   ELSE IF t.k = "arr" THEN FlatSeqOf(t.of, v[2], key, cfg)
   ELSE FlatFields(FlatF(t), v[3], key, cfg, 1)
 RECURSIVE FlatArgs(_, _, _)
-FlatArgs(c, cfg, k) == IF k > Len(c.args) THEN <<>> ELSE FlatMember(c.args[k], c.vals[k], c.args[k].n, cfg) \o FlatArgs(c, cfg, k + 1)
+FlatArgs(c, cfg, k) == IF k > Len(c.args) THEN <<>> ELSE FlatMember(c.args[k], c.vals[k], Pub(c.args[k]), cfg) \o FlatArgs(c, cfg, k + 1)
 Canon(c, cfg) == FlatArgs(c, cfg, 1)
 \* the order in which the pairs are sent
 Rev(s) == [k \in 1..Len(s) |-> s[Len(s) + 1 - k]]
@@ -51,8 +54,8 @@ Orders == {"asc", "desc", "rot", "zip"}
 IsPerm(a, b) == Len(a) = Len(b) /\ \A x \in {a[k] : k \in 1..Len(a)} : Cardinality({k \in 1..Len(a) : a[k] = x}) = Cardinality({k \in 1..Len(b) : b[k] = x})
 
 \* ---- cases: the signature templates a flat request can express + deep shapes of its own
-E3 == Obj("E", "tns", <<F("v", Prim("Integer"), 0, 1), F("ws", Arr(Prim("Unicode")), 0, 1)>>)
-D3 == Obj("D", "tns", <<F("i", Prim("Integer"), 0, 1), F("es", Arr(E3), 0, 1), F("e", E3, 0, 1)>>)
+E3 == Obj("E", "tns", <<Fs("v", "val", Prim("Integer"), 0, 1), F("ws", Arr(Prim("Unicode")), 0, 1)>>)
+D3 == Obj("D", "tns", <<F("i", Prim("Integer"), 0, 1), F("es", Arr(E3), 0, 1), Fs("e", "elem", E3, 0, 1)>>)
 C3 == Obj("C", "tns", <<F("d", D3, 0, 1), F("ds", Arr(D3), 0, 1), F("m", D3, 0, 99), F("n", Prim("Integer"), 0, 1), F("tags", Prim("Unicode"), 0, 99)>>)
 Ev(v, ws) == ObjV("E", <<v, ws>>)
 E1 == Ev(Leaf("1"), SeqV(<<Leaf("a"), Leaf("b c")>>))
